@@ -1,5 +1,9 @@
 import RtcVerif.Model.C17LinOrder
 import RtcVerif.Proofs.C17Chord
+import RtcVerif.Model.C17Vector
+import RtcVerif.Proofs.C17Vector
+import RtcVerif.Model.C17SinglePass
+import RtcVerif.Proofs.C17SinglePass
 import Mathlib.Algebra.Order.Field.Rat
 import Mathlib.Algebra.Order.AbsoluteValue.Basic
 import Mathlib.Tactic.Linarith
@@ -146,6 +150,174 @@ example :
       ∧ linMax (coeffs 2 [0, 1/2, 1]) 0 = 0 ∧ linMax (coeffs 2 [0, 1/2, 1]) (1/4) = 1/8
       ∧ linMax (coeffs 2 [0, 1/2, 1]) (1/2) = 1/4 ∧ linMax (coeffs 2 [0, 1/2, 1]) 1 = 1
       ∧ segGaps 2 [0, 1/2, 1] = [1/4, 1/4] := by
+  decide +kernel
+
+/-! ## a vector goal and its scalar goals -/
+
+open RtcVerif.C03 in
+/-- **`vector_goal_eq_scalars`** (objective): replacing every goal of a priority by its `size`
+    scalar goals (same weight / order, nominal and target column of the component) leaves the
+    objective handed to the solver unchanged — including the per-component divisors `n_active`
+    and the count `n_objectives` under `scale_by_problem_size`, for any number of members, steps
+    and probabilities — when the two valuations assign the same value to component `c` of goal `j`
+    and to the corresponding scalar goal, and every component is a goal of the same kind
+    (`splitOK`: without a finite target a scalar component would be a minimisation goal). -/
+theorem vector_goal_eq_scalars (sbs : Bool) (T : Nat) (probs : List Rat) (val val' : Val)
+    (goals pathGoals : List Goal)
+    (hok : ∀ g ∈ goals, splitOK g = true) (hokp : ∀ g ∈ pathGoals, splitOK g = true)
+    (hv : valsAgree false goals val val') (hvp : valsAgree true pathGoals val val') :
+    objective sbs T probs val' (splitAll goals) (splitAll pathGoals)
+      = objective sbs T probs val goals pathGoals := by
+  rw [objective_eq_documented, objective_eq_documented]
+  unfold documented
+  apply sum_map_congr'
+  intro pm _
+  rw [point_sum_eq pm.2 goals val val' hok hv, path_sum_eq sbs T pm.2 pathGoals val val' hokp hvp,
+    nGoalsDoc_splitAll]
+
+open RtcVerif.C03 in
+/-- the number of objective entries (`n_objectives`) is the same in both formulations -/
+theorem vector_goal_n_objectives (sbs : Bool) (T : Nat) (val val' : Val) (m : Nat) (goals pathGoals : List Goal) :
+    nObjectives sbs T val' m (splitAll goals) (splitAll pathGoals) = nObjectives sbs T val m goals pathGoals := by
+  rw [nObjectives_eq, nObjectives_eq, nGoalsDoc_splitAll]
+
+open RtcVerif.C03 in
+/-- the scalar goal of component `c` sees exactly column `c` of the targets, so its soft-constraint
+    rows and active steps are those of the component -/
+theorem vector_goal_component_targets (g : Goal) (c i : Nat) :
+    (compGoal g c).tmin.entry 0 i = g.tmin.entry c i ∧ (compGoal g c).tmax.entry 0 i = g.tmax.entry c i
+      ∧ (compGoal g c).activeAt 0 i = g.activeAt c i :=
+  ⟨compTarget_entry g.tmin c i, compTarget_entry g.tmax c i, compGoal_activeAt g c i⟩
+
+open RtcVerif.C03 in
+/-- non-vacuity: a size-2 path goal with a 2-D Timeseries target (a NaN gap in the second column) and
+    a size-2 point minimisation goal with per-component nominals, two members, scaling on:
+    the hypotheses hold for a concrete pair of valuations and the common objective is non-trivial -/
+example :
+    let g1 : Goal := { size := 2, weight := 2, order := 1, nominal := [10, 4],
+                       tmin := .scalar .nan, tmax := .scalar .nan, critical := false }
+    let g2 : Goal := { size := 2, weight := 1, order := 2, nominal := [1],
+                       tmin := .ts2 [[.fin 1, .fin 0], [.fin 2, .nan], [.nan, .fin 3]],
+                       tmax := .scalar .nan, critical := false }
+    let val : Val := fun isPath j c m i => ((1 + j + 2 * c + m + i : Nat) : Rat) / (if isPath then 4 else 1)
+    let val' : Val := fun isPath j _ m i => ((1 + 2 * j + m + i : Nat) : Rat) / (if isPath then 4 else 1)
+    splitOK g1 = true ∧ splitOK g2 = true
+      ∧ (quads 0 0 [g2]).map (fun q => (q.2.1, q.2.2.1, q.2.2.2)) = [(0, 0, 0), (0, 1, 1)]
+      ∧ objective true 3 [1/4, 3/4] val' (splitAll [g1]) (splitAll [g2]) = 1667/1280
+      ∧ objective true 3 [1/4, 3/4] val [g1] [g2] = 1667/1280 := by
+  decide +kernel
+
+/-! ## single pass (both methods) and multi-pass with kept soft constraints -/
+
+open RtcVerif.C03 in
+/-- **`update_bounds_method_eq_append`**: at every priority, single-pass method 2 (all objective rows
+    pre-allocated with bounds `(-inf, +inf)`, updated after each priority) has exactly the feasible
+    set of method 1 (objective rows appended one by one). -/
+theorem update_bounds_method_eq_append (P : Plan) (k : Nat) (x : List Rat) :
+    rowsFeasible (updateRows P k) x = rowsFeasible (appendRows P k) x := by
+  simp only [updateRows, appendRows, rowsFeasible_append, updateObjRows, solvedObjRows]
+  have := updateObj_aux (P.objRow.zip P.bnd) 0 k x
+  simp only [Nat.sub_zero] at this
+  rw [this]
+
+open RtcVerif.C03 in
+/-- every point feasible for the single-pass problem of priority `k` is feasible for the keep-soft
+    multi-pass problem of that priority (its rows are a subset: soft rows of later priorities are
+    the only extra rows) -/
+theorem single_pass_feasible_imp_keep_soft (P : Plan) (k : Nat) (x : List Rat)
+    (h : rowsFeasible (appendRows P k) x = true) : rowsFeasible (keepRows P k) x = true := by
+  rw [rowsFeasible_iff] at h ⊢
+  intro r hr
+  apply h r
+  simp only [keepRows, appendRows, List.mem_append, List.mem_flatten] at hr ⊢
+  rcases hr with (hr | ⟨l, hl, hrl⟩) | hr
+  · exact Or.inl (Or.inl hr)
+  · exact Or.inl (Or.inr ⟨l, List.mem_of_mem_take hl, hrl⟩)
+  · exact Or.inr hr
+
+open RtcVerif.C03 in
+/-- a soft row whose violation variable is set to 1 is the function-range row:
+    `(f - 1·(bound - target) - target)/nominal = (f - bound)/nominal`; rows that do not mention the
+    variable are untouched.  With the function range implied by the hard bounds (the documented
+    hypothesis) the extra rows of the single-pass formulation therefore never cut off a point of the
+    keep-soft formulation: its not-yet-active epsilons can be put to 1. -/
+theorem soft_row_at_eps_one (f : SRow) (f0 : Rat) (e : Nat) (bound target nominal : Rat) (lo hi : EVal)
+    (x : List Rat) (he : e < x.length) (hf : ∀ jv ∈ f, jv.1 ≠ e) :
+    let r := softRow f f0 e bound target nominal lo hi
+    rowDot r.coefs (setAt x e 1) + r.b0 = (rowDot f x + f0 - bound) / nominal := by
+  simp only [softRow, rowDot_append, rowDot_scale, rowDot, getD_setAt_eq x e 1 he,
+    rowDot_setAt_of_not_mem f x e 1 hf]
+  ring
+
+open RtcVerif.C03 in
+/-- **`single_pass_eq_keep_soft`** (constraint sets; the objectives are the same function of the
+    priority's own goals by C03).  Let the soft rows of the priorities after `k` be those of the
+    target goals `later` (function `f·x + f0`, violation variable `e`, range `[m, M]`).  Under the
+    documented hypothesis — at the point `x` every later goal's function lies in its range (implied by
+    the hard bounds), the later epsilons are distinct, have positive nominals and occur in no other
+    row or goal function — every point `x` feasible for the keep-soft problem of priority `k` becomes
+    feasible for the single-pass problem by putting the not-yet-active epsilons to 1 and changing no
+    other coordinate.  Together with `single_pass_feasible_imp_keep_soft` the two feasible sets have
+    the same projection onto all other coordinates; without the range hypothesis the formulations
+    genuinely differ (last `example`). -/
+theorem single_pass_eq_keep_soft (P : Plan) (k : Nat) (x : List Rat) (later : List Later)
+    (hlater : (P.soft.drop (k + 1)).flatten = later.flatMap Later.rows)
+    (hkeep : rowsFeasible (keepRows P k) x = true)
+    (hc : ∀ g ∈ later, 0 < g.nominal ∧ g.e < x.length ∧ g.m ≤ rowDot g.f x + g.f0 ∧ rowDot g.f x + g.f0 ≤ g.M)
+    (hd : ∀ g ∈ later, ∀ r ∈ keepRows P k, ∀ jv ∈ r.coefs, jv.1 ≠ g.e)
+    (hff : ∀ g ∈ later, ∀ g' ∈ later, ∀ jv ∈ g'.f, jv.1 ≠ g.e)
+    (hdist : distinctEps later) :
+    rowsFeasible (appendRows P k) (setAll x later) = true
+      ∧ (setAll x later).length = x.length
+      ∧ ∀ j, (∀ g ∈ later, g.e ≠ j) → (setAll x later).getD j 0 = x.getD j 0 := by
+  refine ⟨?_, setAll_length later x, fun j hj => getD_setAll later x j hj⟩
+  have h := extend_later later (keepRows P k) x hkeep hc hd hff hdist
+  rw [rowsFeasible_iff] at h ⊢
+  intro r hr
+  apply h r
+  simp only [appendRows, keepRows, List.mem_append] at hr ⊢
+  rw [flatten_take_drop P.soft (k + 1), List.mem_append, hlater] at hr
+  rcases hr with (hr | hr | hr) | hr
+  · exact Or.inl (Or.inl (Or.inl hr))
+  · exact Or.inl (Or.inl (Or.inr hr))
+  · exact Or.inr hr
+  · exact Or.inl (Or.inr hr)
+
+open RtcVerif.C03 in
+/-- non-vacuity: two priorities (`x₀` model variable, `x₁`, `x₂` the epsilons).  At priority index 1
+    method 2 carries one more (vacuous) row than method 1 and accepts / rejects the same points; at
+    priority index 0 the point `(-1, 1/4, 0)` is keep-soft feasible, violates the later goal's soft row
+    in the single-pass problem, satisfies the hypotheses of `single_pass_eq_keep_soft`, and becomes
+    single-pass feasible with `x₂ := 1`. -/
+example :
+    let soft0 : Row := softRow [(0, 1)] 0 1 (-10) 2 1 (.fin 0) .pinf
+    let g : Later := { f := [(0, 1)], f0 := 0, e := 2, m := -10, M := 10, tmin := 5, tmax := 8, nominal := 1 }
+    let P : Plan := { base := [{ coefs := [(0, 1)], b0 := 0, lo := .fin (-10), hi := .fin 10 }],
+                      soft := [[soft0], g.rows],
+                      objRow := [{ coefs := [(1, 1)], b0 := 0, lo := .ninf, hi := .pinf },
+                                 { coefs := [(2, 1)], b0 := 0, lo := .ninf, hi := .pinf }],
+                      bnd := [(.ninf, .fin (1/4)), (.ninf, .fin 0)] }
+    (updateRows P 1).length = 6 ∧ (appendRows P 1).length = 5 ∧ (keepRows P 0).length = 2
+      ∧ rowsFeasible (updateRows P 1) [-1, 1/4, 1] = true ∧ rowsFeasible (appendRows P 1) [-1, 1/4, 1] = true
+      ∧ rowsFeasible (updateRows P 1) [-1, 1/2, 1] = false ∧ rowsFeasible (appendRows P 1) [-1, 1/2, 1] = false
+      ∧ (P.soft.drop 1).flatten = [g].flatMap Later.rows
+      ∧ rowsFeasible (keepRows P 0) [-1, 1/4, 0] = true ∧ rowsFeasible (appendRows P 0) [-1, 1/4, 0] = false
+      ∧ ((keepRows P 0).all fun r => r.coefs.all fun jv => jv.1 != g.e) = true
+      ∧ g.m ≤ rowDot g.f [-1, 1/4, 0] + g.f0 ∧ rowDot g.f [-1, 1/4, 0] + g.f0 ≤ g.M
+      ∧ setAll [-1, 1/4, 0] [g] = [-1, 1/4, 1]
+      ∧ rowsFeasible (appendRows P 0) (setAll [-1, 1/4, 0] [g]) = true := by
+  decide +kernel
+
+open RtcVerif.C03 in
+/-- without the range hypothesis the formulations differ: a later goal whose function range
+    `[0, 10]` is NOT implied by the hard bound `x₀ ≥ -10` cuts off the keep-soft feasible point
+    `x₀ = -1` for every value of its epsilon in `[0, 1]` (checked at the end points; the row is affine) -/
+example :
+    let g : Later := { f := [(0, 1)], f0 := 0, e := 1, m := 0, M := 10, tmin := 5, tmax := 8, nominal := 1 }
+    let P : Plan := { base := [{ coefs := [(0, 1)], b0 := 0, lo := .fin (-10), hi := .fin 10 }],
+                      soft := [[], g.rows], objRow := [], bnd := [] }
+    rowsFeasible (keepRows P 0) [-1, 0] = true
+      ∧ rowsFeasible (appendRows P 0) [-1, 0] = false ∧ rowsFeasible (appendRows P 0) [-1, 1] = false := by
   decide +kernel
 
 end RtcVerif.C17
